@@ -36,7 +36,7 @@ PROPERTIES = {
         assumptions=["acceptance/refusal of concrete values by the emitted annotations is pydantic's (assumed contract)"],
     ),
     "C05": dict(
-        modules=["contracts.c05_result_fields", "contracts.c01_results", "contracts.c04_modules", "contracts.c01_inline", "contracts.c01_subtype", "contracts.c01_resolve", "contracts.c01_interface", "contracts.c01_typedef"],
+        modules=["contracts.c05_result_fields", "contracts.c01_results", "contracts.c04_modules", "contracts.c01_inline", "contracts.c01_subtype", "contracts.c01_resolve", "contracts.c01_interface", "contracts.c01_typedef", "contracts.c05_typenames"],
         bounded=[_bounded.lazy("contracts.e2e_results", "bounded_results"), _bounded.lazy("contracts.e2e_fuzz", "bounded_generated_operations")],
         explanation="result field type translator against the image spec by structural induction (non-abstract positions), "
                     "directive handling, typename literal",
@@ -145,7 +145,7 @@ PROPERTIES = {
         assumptions=["embedding of the text in Python source (splitlines, ast.unparse, regex rewrite, isort, black) is outside the solvers' fragment: bounded stand-in only"],
     ),
     "C01": dict(
-        modules=["contracts.c01_results", "contracts.c05_result_fields", "contracts.c04_modules", "contracts.c01_inline", "contracts.c01_subtype", "contracts.c01_resolve", "contracts.c01_interface", "contracts.c01_typedef"],
+        modules=["contracts.c01_results", "contracts.c05_result_fields", "contracts.c04_modules", "contracts.c01_inline", "contracts.c01_subtype", "contracts.c01_resolve", "contracts.c01_interface", "contracts.c01_typedef", "contracts.c05_typenames"],
         bounded=[_bounded.lazy("contracts.e2e_results", "bounded_results"), _bounded.lazy("contracts.e2e_pruning", "bounded_pruned_packages"),
                  _bounded.lazy("contracts.e2e_fuzz", "bounded_generated_operations")],
         explanation="union / non-abstract / interface translators, field implementation and the selection-set resolution (fields and bases of a class, classes of an interface field) under contract; acceptance, typed instances and round trip by the reference-executor stand-in",
